@@ -253,3 +253,10 @@ Fixpoint lookup {A : Type} (k : string) (l : list (string * A)) : option A :=
   end.
 
 End Spec.
+
+(* how tuples are read as vectors and grids *)
+Definition v2 {T} {Ops : ops T} (a : V2 T) : vec := vecof (l2 a).
+Definition v3 {T} {Ops : ops T} (a : V3 T) : vec := vecof (l3 a).
+Definition v4 {T} {Ops : ops T} (a : V4 T) : vec := vecof (l4 a).
+Definition m3 {T} {Ops : ops T} (a : V9 T) : mat := gridof 3 (l9 a).
+Definition m4 {T} {Ops : ops T} (a : V16 T) : mat := gridof 4 (l16 a).
